@@ -167,17 +167,6 @@ theorem delivered_exactly_once_in_order {M} (cfg : Cfg M) (hd : cfg.dropUntermin
   · intro he; rw [he] at hph; exact hph
   · intro p r l h a he; rw [he] at hph; exact ⟨hph.2.1, hph.1⟩
 
-/-- The standalone stream of the code as it is built: the cursor survives event-less bodies
-(`resumeKeepsCursor`, regenerated from `handleSSE`), so the end-to-end statement holds for it too.
-This theorem stops compiling when the regenerated flag is `false` (fix F18 absent). -/
-theorem standalone_stream_exactly_once {M} (decode : Bytes → Option M) (maxRetries : Nat)
-    (log : List Block) (hf : Faithful log) (cut0 : Nat) (t0 : Term) (script : List FAttempt) :
-    let cfg : Cfg M := { decode := decode, isReply := fun _ => false, forCall := false, maxRetries := maxRetries }
-    ∃ n, n ≤ log.length ∧ (runF cfg log cut0 t0 script).msgs = specMsgs cfg (eventsOf (log.take n)) := by
-  intro cfg
-  obtain ⟨n, hn, hm, _⟩ := delivered_exactly_once_in_order cfg rfl (Or.inr (show resumeKeepsCursor = true by decide)) log hf cut0 t0 script
-  exact ⟨n, hn, hm⟩
-
 /-! ## 4. the retry budget -/
 
 /-- while reconnecting, `retriesWithoutProgress ≤ maxRetries` and `connectSSE`'s attempt counter is
